@@ -87,6 +87,8 @@ pub enum Op {
     /// drop all guards opened by FillScopes
     Unfill,
     BusyWait { micros: u64 },
+    /// make sure this thread's command queue exists and is registered (a thread that traced before)
+    Warm,
 }
 
 #[derive(Debug, Clone, PartialEq, Eq, Hash, Serialize, Deserialize)]
@@ -212,6 +214,7 @@ impl Op {
             Op::FillLocalSpans { leave } => format!("filllocals(leave={leave})"),
             Op::Unfill => "unfill".into(),
             Op::BusyWait { micros } => format!("busy({micros}us)"),
+            Op::Warm => "warm".into(),
         }
     }
 }
